@@ -157,7 +157,8 @@ class Case:
     def build(self, costs):
         """costs: dict spe/dup/hgt/floss/sloss -> value.  Returns the superrec2 input."""
         d = {
-            "object_tree": self._newick(self.O, {int(k): {"color": v} for k, v in (self.desc.get("ocolors") or {}).items()}),
+            "object_tree": self._newick(self.O, {} if self.desc.get("colorattr") else
+                                        {int(k): {"color": v} for k, v in (self.desc.get("ocolors") or {}).items()}),
             "species_tree": self._newick(self.S),
             "leaf_object_species": self.leafmap,
             "costs": costs_dict(costs, sum(map(ord, repr(sorted(self.leafmap.items()))))),
@@ -172,7 +173,18 @@ class Case:
             return self._ctor(SuperReconciliationInput.from_dict(d))
         return self._ctor(ReconciliationInput.from_dict(d))
 
+    def _colorattr(self, inp):
+        """desc['colorattr']: colours set on the nodes by plain attribute assignment in Python instead of NHX features in the Newick string."""
+        if self.desc.get("colorattr"):
+            for k, v in (self.desc.get("ocolors") or {}).items():
+                (inp.object_tree & self.O.name[int(k)]).color = v
+        return inp
+
     def _ctor(self, inp):
+        inp = self._colorattr(inp)
+        return self._ctor2(inp)
+
+    def _ctor2(self, inp):
         """desc['ctor']: the same input handed to the CONSTRUCTOR the way a program may build it: mapping keys in another order than the
         leaves of the tree, leaf syntenies collected in a defaultdict."""
         k = self.desc.get("ctor")
